@@ -320,9 +320,12 @@ func BuildBed(dir string, progs []BedProgram) ([]string, error) {
 					}
 					var params, argNames []string
 					for _, p := range ft.Params.List {
-						for _, n := range p.Names {
-							params = append(params, n.Name+" "+exprString(pk.fset, p.Type))
-							argNames = append(argNames, n.Name)
+						for range p.Names {
+							// positional names: the interface's own parameter names may shadow a type
+							// of the package inside the stub's body (an argument named Alpha, a type Alpha)
+							an := fmt.Sprintf("verifA%d", len(argNames))
+							params = append(params, an+" "+exprString(pk.fset, p.Type))
+							argNames = append(argNames, an)
 						}
 					}
 					var results []string
